@@ -77,6 +77,7 @@ fn child_poll(id: u32, addr: usize, cx: &mut Context<'_>, stream: bool) -> (Stri
 }
 
 fn log_cout(id: u32, resp: &str, k: i64) {
+    let _s = Suspend::new();
     ev(format!(r#"{{"e":"cout","c":{},"resp":"{}","k":{}}}"#, id, resp, k));
 }
 fn log_cdrop(id: u32, addr: usize) {
@@ -361,14 +362,16 @@ impl<T: FromUp> Stream for SUp<T> {
                 None => {
                     ev(r#"{"e":"up","resp":"P","c":0}"#.to_string());
                     let wk = cx.waker().clone();
-                    with(|w| w.up_waker = Some(wk));
+                    let old = with(|w| w.up_waker.replace(wk));
+                    drop(old);
                     Poll::Pending
                 }
             },
             "P" => {
                 ev(r#"{"e":"up","resp":"P","c":0}"#.to_string());
                 let wk = cx.waker().clone();
-                with(|w| w.up_waker = Some(wk));
+                let old = with(|w| w.up_waker.replace(wk));
+                    drop(old);
                 Poll::Pending
             }
             _ => {
